@@ -80,9 +80,12 @@ void run_lock(Ctx &c, const std::vector<uint32_t> *explicit_choices) {
 		}
 	});
 	size_t ci = 0;
+	unsigned smode = explicit_choices ? 0 : t.pick(5);
+	if(!explicit_choices) c.tagf("sched-mode-%u", smode);
+	auto tape_choose = dsched::make_chooser(t, smode);
 	auto choose = [&](size_t n) -> uint32_t {
 		if(explicit_choices) return ci < explicit_choices->size() ? (*explicit_choices)[ci++] : 0;
-		return t.done() ? 0 : t.next() % n;
+		return tape_choose(n);
 	};
 	auto r = dsched::run(bodies, choose, 50000);
 	VCHECK(c, "C12", r.verdict.empty(), "%s: %s after %llu steps: a waiter never gets the lock although the holder released it", Ticket ? "ticket_spinlock" : "simple_spinlock", r.verdict.c_str(), (unsigned long long)r.steps);
@@ -107,11 +110,11 @@ void verif_case(Ctx &c) {
 // all interleavings (at atomic-access granularity) of 2 threads x 2 acquisitions and 3 threads x 1,
 // by depth-first search over the scheduler's choice points with re-execution
 void verif_enum(Enum &e) {
-	for(uint32_t kind = 0; kind < 2; kind++) for(uint32_t shape = 0; shape < 2; shape++) {
-		// tape prefix: kind, nthreads-2, then acquisitions-1 per thread
-		std::vector<uint32_t> prefix = shape == 0 ? std::vector<uint32_t>{kind, 0, 1, 1} : std::vector<uint32_t>{kind, 1, 0, 0, 0};
+	for(uint32_t kind = 0; kind < 2; kind++) for(uint32_t shape = 0; shape < 2; shape++) for(uint32_t start = 0; start < 2; start++) {
+		// tape prefix: kind, nthreads-2, then acquisitions-1 per thread, the start value of the ticket counters (0: fresh lock, 1: two tickets before the wrap), schedule mode 0 (uniform)
+		std::vector<uint32_t> prefix = shape == 0 ? std::vector<uint32_t>{kind, 0, 1, 1, start, 0} : std::vector<uint32_t>{kind, 1, 0, 0, 0, start, 0};
 		std::vector<uint32_t> choices; uint64_t runs = 0; bool more = true;
-		uint64_t cap = e.tier == "thorough" ? 60000 : 4000;
+		uint64_t cap = e.tier == "thorough" ? 30000 : 2000;
 		while(more && runs < cap) {
 			std::vector<uint32_t> tape = prefix; tape.insert(tape.end(), choices.begin(), choices.end());
 			if(!e.run(tape)) return;
@@ -123,7 +126,7 @@ void verif_enum(Enum &e) {
 			while(i >= 0 && choices[i] + 1 >= sizes[i]) i--;
 			if(i < 0) more = false; else { choices[i]++; choices.resize(i + 1); }
 		}
-		char name[160]; snprintf(name, sizeof name, "%s, %s: interleavings at atomic-access granularity%s", kind ? "simple_spinlock" : "ticket_spinlock", shape == 0 ? "2 threads x 2 acquisitions" : "3 threads x 1 acquisition", more ? " (bounded by the run cap, not complete)" : "");
+		char name[220]; snprintf(name, sizeof name, "%s%s, %s: interleavings at atomic-access granularity%s", kind ? "simple_spinlock" : "ticket_spinlock", start ? " (ticket counters start at 0xfffffffe)" : "", shape == 0 ? "2 threads x 2 acquisitions" : "3 threads x 1 acquisition", more ? " (bounded by the run cap, not complete)" : "");
 		e.scope(name, runs);
 	}
 }
